@@ -155,3 +155,18 @@ def gen_addrs(rng, cfg, n):
         else:
             out.append(rng.getrandbits(L))
     return out
+
+
+SPECIAL_V4 = ["224.0.0.5", "239.1.1.1", "127.0.0.1", "169.254.1.1", "10.0.0.1", "192.168.1.1", "172.16.0.1", "100.64.0.1", "8.8.8.8",
+              "255.255.255.0", "255.255.128.0", "0.0.63.255", "255.0.0.0", "0.0.0.255", "128.0.0.0", "255.255.255.254", "0.0.0.1"]
+SPECIAL_V6 = ["ff02::1", "ff02::2", "ff05::1:3", "fe80::1", "::1", "::", "2001:db8::1", "64:ff9b::1", "fc00::1", "2002::1"]
+
+
+def special_preimages(cfg):
+    """addresses whose *image* under this configuration is a special-looking value (mask-shaped, multicast, link-local, ...):
+    the inverse images are taken from the cache-free spec (Gfull) evaluated by the Lean driver"""
+    import ipaddress
+    from .ip_checks import spec_images
+    vals = [int(ipaddress.ip_address(x)) for x in (SPECIAL_V4 if cfg.fam == 4 else SPECIAL_V6)]
+    pre = spec_images(cfg, vals, inv=True) or []
+    return [p for p in pre if p is not None]
